@@ -24,7 +24,7 @@ func init() {
 			"(d) the result map is keyed by the index under which the validators manager returned the validator whose public key selects the account; the validators manager fills its three maps from one element per iteration and keys ValidatorsByPubKey results by validatorPubKeyToIndex of the same key; " +
 			"(e) dirk replaces accounts and pubKeys only when NOT (new list empty and old list non-empty); the validators manager replaces its maps only after a nil error and a non-empty result; " +
 			"(f) the by-index variants add an account only for requested indices. " +
-			"Added with the fourth seeding round: (g) the validators manager's maps are accessed under validatorsMutex. Added with the fifth seeding round: (h) the validators manager is refreshed once with the whole list of public keys, not in a loop and not with a part of the list. Added with the sixth seeding round and the false-alarm regression: (c) the state-predicate evaluator also evaluates membership in a package-level set with constant keys. Added with the eighth seeding round: (f, extended) every non-nil result of a by-index query is the map it filled itself; (n) no package-level collection in util or the account managers is keyed by the bare account name; (y) C15.j is taken over. Added with the ninth seeding round: (p) the validators manager's request to the beacon node carries no state filter. NOT decided: which names a regular expression admits (regexp semantics), correctness of ValidatorToState (library), unlock behaviour.",
+			"Added with the fourth seeding round: (g) the validators manager's maps are accessed under validatorsMutex. Added with the fifth seeding round: (h) the validators manager is refreshed once with the whole list of public keys, not in a loop and not with a part of the list. Added with the sixth seeding round and the false-alarm regression: (c) the state-predicate evaluator also evaluates membership in a package-level set with constant keys. Added with the eighth seeding round: (f, extended) every non-nil result of a by-index query is the map it filled itself; (n) no package-level collection in util or the account managers is keyed by the bare account name; (y) C15.j is taken over. Added with the ninth seeding round: (p) the validators manager's request to the beacon node carries no state filter. Added with the tenth seeding round: (q) every successful return of RefreshValidatorsFromBeaconNode passes the store of the new maps, except on the nothing-received edge; (b, extended) the name matched may be assembled in a byte buffer fed from wallet.Name(), '/', account.Name() only. NOT decided: which names a regular expression admits (regexp semantics), correctness of ValidatorToState (library), unlock behaviour.",
 		Technique: "string-shape analysis of regexp sources, guard/edge-deletion queries through boolean flags, exhaustive finite-enum partial evaluation of state predicates, provenance of map keys/values, sibling template conformance",
 		Rule:      "obligations per compiled specifier (a), per result insertion (b,d,f), per predicate x 10 states (c), per replacing store (e)",
 	})
